@@ -2,7 +2,6 @@ use std::{any::type_name, rc::Rc};
 
 use children::{children_between, trivia_before};
 use dprint_core::formatting::{
-	ir_helpers,
 	condition_helpers::is_multiple_lines,
 	condition_resolvers::true_resolver,
 	ir_helpers::{new_line_group, with_indent},
@@ -63,7 +62,7 @@ macro_rules! pi {
 	(@s; $o:ident: string($e:expr $(,)?) $($t:tt)*) => {{
 		// Token text is not under our control (e.g. malformed tokens of a broken input may
 		// contain tabs and newlines), dprint wants those to be signalled separately
-		$o.extend(dprint_core::formatting::ir_helpers::gen_from_raw_string(&$e));
+		$crate::push_raw_text($o, &$e);
 		pi!(@s; $o: $($t)*);
 	}};
 	(@s; $o:ident: nl $($t:tt)*) => {{
@@ -208,6 +207,35 @@ impl Printable for SyntaxToken {
 	}
 }
 
+/// Push one line of text as is: dprint wants tabs to be signalled separately.
+fn push_raw_line(out: &mut PrintItems, line: &str) {
+	for (i, part) in line.split('\t').enumerate() {
+		if i > 0 {
+			out.push_signal(dprint_core::formatting::Signal::Tab);
+		}
+		if !part.is_empty() {
+			out.push_string(part.to_owned());
+		}
+	}
+}
+/// Push token text as is (it may span lines, e.g. verbatim strings), ignoring current indent.
+/// Only `\n` separates lines here, `\r` of a CRLF inside of a literal is a part of its value.
+pub(crate) fn push_raw_text(out: &mut PrintItems, text: &str) {
+	let multiline = text.contains('\n');
+	if multiline {
+		out.push_signal(dprint_core::formatting::Signal::StartIgnoringIndent);
+	}
+	for (i, line) in text.split('\n').enumerate() {
+		if i > 0 {
+			out.push_signal(dprint_core::formatting::Signal::NewLine);
+		}
+		push_raw_line(out, line);
+	}
+	if multiline {
+		out.push_signal(dprint_core::formatting::Signal::FinishIgnoringIndent);
+	}
+}
+
 impl Printable for Text {
 	fn print(&self, out: &mut PrintItems) {
 		if matches!(self.kind(), TextKind::StringBlock) {
@@ -230,7 +258,7 @@ impl Printable for Text {
 					p!(out, >ii nl <ii);
 				} else {
 					// Line may contain tabs, which dprint wants to be signalled separately
-					out.extend(ir_helpers::gen_from_string(ele));
+					push_raw_line(out, ele);
 					p!(out, nl);
 				}
 			}
@@ -239,7 +267,7 @@ impl Printable for Text {
 			return;
 		}
 		// Verbatim and quoted strings may span lines and contain tabs, keep them as is
-		out.extend(ir_helpers::gen_from_raw_string(&format!("{}", self)));
+		push_raw_text(out, &format!("{}", self));
 	}
 }
 impl Printable for Number {
